@@ -963,6 +963,9 @@ func commonSuffixRule(ctx *Ctx, r *Result) {
 	// atom index(x, E) == index(y, E) that lets the scan continue. E = φ + δ
 	// for the loop variable φ (δ depends on whether φ counts the byte compared
 	// or the start of the suffix found so far).
+	// (E may mention the shorter argument's length, so it is taken per family of
+	// header segments — the iterations started from one arrival state.)
+	Efam := map[int]*Term{}
 	var E *Term
 	var phi string
 	for _, pa := range paths {
@@ -973,6 +976,7 @@ func commonSuffixRule(ctx *Ctx, r *Result) {
 			t := a.T
 			if a.Pos && t.Op == "bin" && t.Name == "==" && t.Args[0].Op == "index" && t.Args[1].Op == "index" &&
 				t.Args[0].Args[1].Key() == t.Args[1].Args[1].Key() {
+				Efam[pa.Pre] = t.Args[0].Args[1]
 				E = t.Args[0].Args[1]
 			}
 		}
@@ -985,17 +989,51 @@ func commonSuffixRule(ctx *Ctx, r *Result) {
 			return false
 		})
 	}
-	if E == nil || phi == "" || decomposeKey(E.Key()).base != phi {
-		r.undecided("R1.9", "splitAtCommonSuffix", "no back edge conditioned on the equality of two bytes at the same position φ+δ")
+	var sigma int64 // E = σ·φ + rest, σ = ±1
+	if E != nil && phi != "" {
+		sigma = newZB().lin(E).coef[phi]
+	}
+	for _, e := range Efam {
+		if newZB().lin(e).coef[phi] != sigma {
+			sigma = 0
+		}
+	}
+	if E == nil || phi == "" || (sigma != 1 && sigma != -1) {
+		r.undecided("R1.9", "splitAtCommonSuffix", "no back edge conditioned on the equality of two bytes at the same position E = ±φ + c")
 		return
 	}
-	ek := E.Key()
+	// E with the loop variable replaced by another linear expression
+	atPhi := func(z *zbCtx, repl lin) lin {
+		l := z.lin(E)
+		return l.add(lin{coef: map[string]int64{phi: 1}}, -sigma).add(repl, sigma)
+	}
+	// what a path knows about the sign of E
+	signOfE := func(pa *Path) int {
+		z := newZB()
+		for _, a := range pa.Atoms {
+			z.addAtom(a)
+		}
+		e := z.lin(E)
+		switch {
+		case z.prove(linConst(-1).add(e, -1)): // −E − 1 ≥ 0
+			return -1
+		case z.prove(e):
+			return 1
+		}
+		return 0
+	}
 	for _, pa := range paths {
 		if pa.Start == "entry" {
 			continue
 		}
 		desc := "splitAtCommonSuffix {" + radixShort(pa) + "}"
 		good, detail := true, ""
+		if Efam[pa.Pre] == nil {
+			r.check(false, "R1.9", desc, "", "a family of iterations without a back edge that compares two bytes", 1)
+			continue
+		}
+		E = Efam[pa.Pre]
+		ek := E.Key()
 		// which argument is the shorter one on this path
 		short, long := A, B
 		switch pa.Val("bin:<(len:builtin.len(" + B + "), len:builtin.len(" + A + "))") {
@@ -1009,7 +1047,7 @@ func commonSuffixRule(ctx *Ctx, r *Result) {
 		if eqVal == 0 {
 			eqVal = pa.Val("bin:==(index(" + aligned + ", " + ek + "), index(" + short + ", " + ek + "))")
 		}
-		exhausted := pa.Val("bin:<(" + ek + ", 0)")
+		sign := signOfE(pa) // −1: E < 0 (the shorter argument is exhausted); +1: E ≥ 0
 		if pa.End == "return" {
 			nRet++
 			if len(pa.Rets) != 3 {
@@ -1037,25 +1075,29 @@ func commonSuffixRule(ctx *Ctx, r *Result) {
 					}
 				}
 				// stop only at the first difference or when the shorter argument is exhausted
-				if exhausted != 1 && eqVal != -1 {
+				if sign != -1 && eqVal != -1 {
 					good, detail = false, "the scan stops although the bytes compared are equal and bytes remain (the suffix returned is not the longest common one)"
 				}
 			}
 		} else {
 			// back edge: continue only on equal bytes, one position to the left
-			if exhausted != -1 || eqVal != 1 {
+			if sign != 1 || eqVal != 1 {
 				good, detail = false, "the scan continues without having compared equal bytes at the same distance from the end"
 			}
 			for name, v := range pa.Next {
-				if "loopphi:"+name+"@"+pa.Start == phi && v.Key() != "bin:-("+phi+", 1)" {
-					good, detail = false, "the scan does not move one byte to the left: "+v.Key()
+				if "loopphi:"+name+"@"+pa.Start != phi {
+					continue
+				}
+				z := newZB()
+				step := atPhi(z, z.lin(v)).add(z.lin(E), -1) // E(next) − E
+				if !(step.isConst() && step.c == -1) {
+					good, detail = false, fmt.Sprintf("the position compared does not move one byte to the left (E(next) − E = %s)", step)
 				}
 			}
 		}
 		r.check(good, "R1.9", desc, "", detail, 1)
 	}
 	// the scan starts at the last byte of the shorter argument
-	delta := decomposeKey(ek).off
 	for _, pa := range paths {
 		if pa.Start != "entry" {
 			continue
@@ -1065,12 +1107,19 @@ func commonSuffixRule(ctx *Ctx, r *Result) {
 			short = B
 		}
 		okInit := false
+		for _, q := range paths {
+			if q.PrePath == pa && Efam[q.Pre] != nil {
+				E = Efam[q.Pre]
+			}
+		}
 		for name, v := range pa.Next {
 			if !strings.HasPrefix(phi, "loopphi:"+name+"@") {
 				continue
 			}
-			d := decomposeKey(v.Key())
-			if d.base == "len:builtin.len("+short+")" && d.off+delta == -1 {
+			z := newZB()
+			first := atPhi(z, z.lin(v))
+			want := z.linLen(&Term{Op: "param", Name: strings.TrimPrefix(short, "param:")}).add(linConst(1), -1)
+			if d := first.add(want, -1); d.isConst() && d.c == 0 {
 				okInit = true
 			}
 		}
